@@ -62,6 +62,13 @@ CHECKS.update(
         note="Exponent values are enumerated by solver-driven realisation (the number formatter needs concrete integers); content of the numeric mini-language, locale output, Measurement formats and '#' outside.",
         design="4/C09",
     ),
+    C10=dict(
+        text="Generated definition files whose every numeric literal is a symbolic placeholder are loaded through the real text parser; names, symbols, aliases, factors (incl. prefixed/plural spellings), dimensionality, "
+        "offset conversions, group/system membership, defaults and context rules/redefinitions of the resulting registry are proved equal to the template's model for all literal values; repeated for permutations "
+        "of the unit/prefix lines, layout variants, and loading paths (iterable, file, define(), load_definitions, cold and warm disk cache); 17 kinds of ill-formed definitions must raise at load or first use.",
+        note="The text structure is enumerated from one template family (not every file); numbers are symbolic. hash_mode=mixed.",
+        design="4/C10",
+    ),
     C11=dict(
         text="Conversions under contexts in the real registry on symbolic magnitudes and parameters: for the bundled contexts the result is proved equal to an independent evaluation of the equation text "
         "in default_en.txt (own parser + quantity algebra) along the declared chain; for generated contexts all activation forms (name, alias, object, enable, with, per-call, decorator) and stacks up to 3 "
